@@ -130,7 +130,12 @@ impl<W, R, T> CompilationScope<'_, W, R, T> {
             .zip(spec.params[first_default..].iter())
         {
             let default_type = self.type_of(default).map_err(|e| e.trace(input))?;
-            if param_spec.type_.bind_in_assignment(&default_type).is_none() {
+            // a default that only fits by binding the function's own type parameter fits no call
+            if !param_spec
+                .type_
+                .bind_in_assignment(&default_type)
+                .map_or(false, |bind| bind.is_empty())
+            {
                 return Err(CompilationError::VariableTypeMismatch {
                     variable_name: *param_name,
                     expected_type: param_spec.type_.clone(),
@@ -868,7 +873,11 @@ impl<W, R, T> CompilationScope<'_, W, R, T> {
                     .zip(param_specs[first_default..].iter())
                 {
                     let default_type = self.type_of(default).map_err(|e| e.trace(&input))?;
-                    if param_spec.type_.bind_in_assignment(&default_type).is_none() {
+                    if !param_spec
+                        .type_
+                        .bind_in_assignment(&default_type)
+                        .map_or(false, |bind| bind.is_empty())
+                    {
                         return Err(CompilationError::VariableTypeMismatch {
                             variable_name: *param_name,
                             expected_type: param_spec.type_.clone(),
